@@ -76,8 +76,9 @@ def run(name, tier='quick'):
 if __name__ == '__main__':
     if sys.argv[1] == 'verify':
         src, pid = sys.argv[2], sys.argv[3]
+        off = int(sys.argv[4]) if len(sys.argv) > 4 else 0          # second round of candidates: stored as <Pid>-3, <Pid>-4
         for i in ('1', '2'):
             if os.path.exists(os.path.join(src, 'patch%s.diff' % i)):
-                print(json.dumps(verify(src, i, '%s-%s' % (pid, i), pid), indent=1))
+                print(json.dumps(verify(src, i, '%s-%d' % (pid, int(i) + off), pid), indent=1))
     elif sys.argv[1] == 'run':
         run(sys.argv[2], sys.argv[3] if len(sys.argv) > 3 else 'quick')
